@@ -862,6 +862,9 @@ func (s *Subscription) reaccess(t *rescache.Throttle) {
 	if s.queueFlag != 0 {
 		verifNote("reaccessDeferred", "cid", s.c.CID(), "rid", s.rid, "direct", s.direct)
 		s.flags |= flagReaccess
+		// The cached access is no longer valid. Requests made before the
+		// deferred reaccess is handled must ask the service again.
+		s.access = nil
 		return
 	}
 
